@@ -73,6 +73,9 @@ def refOnly (P : RefParams) (op : String) (a : List Nat) : Option String :=
   | "fp_tomont", [x] => some (h (Ref.fp_tomont P x))
   | "fp_frommont", [x] => some (h (Ref.fp_frommont P x))
   | "fp_exp3div4", [x] => some (h (Ref.fp_exp3div4 P x))
+  -- the harness hands over a zero-padded buffer holding the `len`-byte integer `v`
+  | "fp_decode_reduce", [len, v] =>
+      some (h (Ref.fp_decode_reduce P (Ref.toBytes (max len (8 * P.n)) (v % 256 ^ len)) len))
   | _, _ => none
 
 def handle : List String → Option String
